@@ -994,12 +994,19 @@ Hypothesis holds_ext : forall s s' e, (forall q, In q (qids_of e) -> same_on s s
    final guess is part of [bstep]) *)
 Record blk := mkBlk { beqs : list eqn; bqids : list nat; bstep : state -> state }.
 
-(* a block step only writes the block's own quantities, and afterwards the block's equations hold *)
-Definition good_block (b : blk) : Prop :=
-  forall s, inv s ->
-    inv (bstep b s) /\
-    (forall q, ~ In q (bqids b) -> same_on s (bstep b s) q) /\
-    (forall e, In e (beqs b) -> holds (bstep b s) e).
+(* solving block b in state s only writes the block's own quantities, and afterwards the block's equations hold
+   (this is what a successful solver run gives, see good_model_block below) *)
+Definition good_at (b : blk) (s : state) : Prop :=
+  inv (bstep b s) /\
+  (forall q, ~ In q (bqids b) -> same_on s (bstep b s) q) /\
+  (forall e, In e (beqs b) -> holds (bstep b s) e).
+
+(* ... for every block, in the state in which it is actually run *)
+Fixpoint all_good (bs : list blk) (s : state) : Prop :=
+  match bs with
+  | [] => True
+  | b :: r => good_at b s /\ all_good r (bstep b s)
+  end.
 
 (* block-triangular order: no equation mentions a quantity that a LATER block solves for *)
 Fixpoint triangular (bs : list blk) : Prop :=
@@ -1011,21 +1018,14 @@ Fixpoint triangular (bs : list blk) : Prop :=
 
 Definition run_blocks (bs : list blk) (s : state) : state := fold_left (fun s b => bstep b s) bs s.
 
-Lemma run_blocks_inv bs s : (forall b, In b bs -> good_block b) -> inv s -> inv (run_blocks bs s).
-Proof.
-  revert s; induction bs as [|b r IH]; intros s G Hs; simpl; auto.
-  apply IH; [intros; apply G; simpl; auto|]. apply (G b); simpl; auto.
-Qed.
-
 Lemma later_blocks_preserve bs s e :
-  (forall b, In b bs -> good_block b) -> inv s ->
+  all_good bs s ->
   (forall b', In b' bs -> forall q, In q (bqids b') -> ~ In q (qids_of e)) ->
   holds s e -> holds (run_blocks bs s) e.
 Proof.
-  revert s; induction bs as [|b r IH]; intros s G Hs Hd H; simpl; auto.
-  destruct (G b (or_introl eq_refl) s Hs) as (Hi & Hloc & _).
+  revert s; induction bs as [|b r IH]; intros s G Hd H; simpl; auto.
+  destruct G as ((Hi & Hloc & _) & G).
   apply IH; auto.
-  - intros; apply G; simpl; auto.
   - intros; eapply Hd; simpl; eauto.
   - apply holds_ext with s; auto. intros q Hq. apply Hloc. intros Hin. exact (Hd b (or_introl eq_refl) q Hin Hq).
 Qed.
@@ -1033,14 +1033,14 @@ Qed.
 (* THEOREM blockwise_equals_joint: after solving the blocks one after another in a block-triangular order, writing
    the result back after each block, ALL equations of ALL blocks hold in the final state *)
 Theorem blockwise_equals_joint bs s0 :
-  (forall b, In b bs -> good_block b) -> triangular bs -> inv s0 ->
+  all_good bs s0 -> triangular bs ->
   forall b e, In b bs -> In e (beqs b) -> holds (run_blocks bs s0) e.
 Proof.
-  revert s0; induction bs as [|b0 r IH]; intros s0 G T Hs b e Hb He; simpl in *; [contradiction|].
-  destruct T as [T0 T]. destruct (G b0 (or_introl eq_refl) s0 Hs) as (Hi & _ & Hsolve).
+  revert s0; induction bs as [|b0 r IH]; intros s0 G T b e Hb He; simpl in *; [contradiction|].
+  destruct T as [T0 T]. destruct G as ((Hi & _ & Hsolve) & G).
   destruct Hb as [<-|Hb].
   - apply later_blocks_preserve; auto.
-    + intros b' Hb' q Hq. exact (T0 e He b' Hb' q Hq).
+    intros b' Hb' q Hq. exact (T0 e He b' Hb' q Hq).
   - apply IH with b; auto.
 Qed.
 
@@ -1291,3 +1291,148 @@ Qed.
 
 End Measurement.
 End Linear.
+
+(* ------------------------------------------------------------------ 7. the loop of _steady_nonlinear *)
+Section ModelBlocks.
+Open Scope R_scope.
+Variables (flat : bool) (lg : list (option bool)) (kinds : list qkind) (tol : R) (nq : nat).
+
+(* the steady path that the levels and changes stored in a variant define *)
+Definition vpath (v : variant RA) (q : nat) (s : Z) : R :=
+  variant_cell RA nobad (is_log lg q) (vget RA (v_levels RA v) q) (vget RA (v_changes RA v) q) s.
+
+(* equation e holds (within tol) on the path of v at the dates the solver evaluates *)
+Definition eq_holds (v : variant RA) (e : expr RA) : Prop :=
+  Rabs (eval RA (at_date (vpath v) 0) e) < tol /\ (flat = false -> Rabs (eval RA (at_date (vpath v) 1) e) < tol).
+
+Definition same_cells (v v' : variant RA) (q : nat) : Prop :=
+  vget RA (v_levels RA v) q = vget RA (v_levels RA v') q /\ vget RA (v_changes RA v) q = vget RA (v_changes RA v') q.
+
+Definition qids_of_expr (e : expr RA) : list nat := map fst (tokens RA e).
+
+Lemma eq_holds_ext v v' e : (forall q, In q (qids_of_expr e) -> same_cells v v' q) -> eq_holds v e -> eq_holds v' e.
+Proof.
+  intros H [H0 H1].
+  assert (E : forall d, eval RA (at_date (vpath v') d) e = eval RA (at_date (vpath v) d) e).
+  { intros d. apply eval_ext. intros q s Hqs. unfold at_date, vpath.
+    destruct (H q) as [El Ec]; [unfold qids_of_expr; apply in_map_iff; exists (q, s); auto|]. now rewrite El, Ec. }
+  split; [|intros F]; rewrite E; auto.
+Qed.
+
+Lemma stored_path_vpath v wrt lq cq eqs g :
+  stored_path flat lg kinds v wrt lq cq eqs g = vpath (the_v' flat lg kinds v wrt lq cq eqs g).
+Proof. reflexivity. Qed.
+
+(* a block as the loop runs it: equations, solved level / change qids, the enumeration of its qids, the final guess *)
+Record mblock := mkMB { mb_eqs : list (expr RA); mb_lq : list nat; mb_cq : list nat; mb_wrt : list nat; mb_g : list R }.
+
+Definition mb_step (b : mblock) (v : variant RA) : variant RA :=
+  the_v' flat lg kinds v (mb_wrt b) (mb_lq b) (mb_cq b) (mb_eqs b) (mb_g b).
+Definition mb_resid (b : mblock) (v : variant RA) : list R :=
+  ev_func RA (the_ev flat lg v (mb_wrt b) (mb_lq b) (mb_cq b) (mb_eqs b)) (mb_g b).
+
+Definition flat_changes : list R := map (fun q => gen_zero_change RA (nth q lg None)) (seq 0 nq).
+
+Definition vinv (v : variant RA) : Prop :=
+  length (v_levels RA v) = nq /\ length (v_changes RA v) = nq /\ (flat = true -> v_changes RA v = flat_changes).
+
+(* block b is well-formed and the solver succeeded on it when started from v *)
+Definition mb_ok (b : mblock) (v : variant RA) : Prop :=
+  NoDup (mb_wrt b) /\
+  (forall q, In q (mb_wrt b) -> (q < nq)%nat) /\
+  length (mb_g b) = (count_true (map (fun q => mem_nat q (mb_lq b)) (mb_wrt b)) +
+                     count_true (if flat then [] else map (fun q => mem_nat q (mb_cq b)) (mb_wrt b)))%nat /\
+  (forall q, In q (mb_wrt b) -> In q (mb_cq b) -> is_loggable (kind_of kinds q) = true) /\
+  (forall e q s, In e (mb_eqs b) -> In (q, s) (tokens RA e) -> (q < nq)%nat) /\
+  Forall (fun r => Rabs r < tol) (mb_resid b v).
+
+Lemma mask_select_nil {T} (l : list T) : mask_select l [] = [].
+Proof. destruct l; reflexivity. Qed.
+
+Lemma mb_step_inv b v : vinv v -> mb_ok b v -> vinv (mb_step b v).
+Proof.
+  intros (Hl & Hc & Hf) (ND & Hlt & Hg & Hlog & Htok & _). unfold mb_step.
+  assert (Hc' : length (v_changes RA v) = length (v_levels RA v)) by lia.
+  rewrite <- Hl in Hlt.
+  split; [|split].
+  - rewrite v'_levels_length; auto.
+  - rewrite v'_changes; auto. rewrite update_from_array_length. rewrite v1_changes_length; auto.
+  - intros F. rewrite v'_changes; auto. unfold bc. rewrite F, !mask_select_nil.
+    change (update_from_array RA ?d [] []) with d.
+    rewrite v1_eq. cbn [zero_changes v_changes]. rewrite Hc. reflexivity.
+Qed.
+
+Lemma mb_step_local b v q : vinv v -> mb_ok b v -> ~ In q (mb_wrt b) -> same_cells v (mb_step b v) q.
+Proof.
+  intros (Hl & Hc & Hf) (ND & Hlt & Hg & Hlog & Htok & _) Hq. unfold mb_step, same_cells.
+  assert (Hc' : length (v_changes RA v) = length (v_levels RA v)) by lia.
+  rewrite <- Hl in Hlt.
+  split.
+  - symmetry. apply levels_untouched. tauto.
+  - rewrite changes_untouched by (auto; tauto). rewrite v1_eq. destruct flat eqn:F; auto.
+    simpl. rewrite (Hf eq_refl). unfold flat_changes. rewrite map_length, seq_length. reflexivity.
+Qed.
+
+Lemma mb_step_solves b v e : vinv v -> mb_ok b v -> In e (mb_eqs b) -> eq_holds (mb_step b v) e.
+Proof.
+  intros (Hl & Hc & Hf) (ND & Hlt & Hg & Hlog & Htok & Hs) He. unfold mb_step, eq_holds.
+  assert (Hc' : length (v_changes RA v) = length (v_levels RA v)) by lia.
+  rewrite <- Hl in Hlt, Htok.
+  rewrite <- stored_path_vpath. apply success_means_equations_hold; auto.
+Qed.
+
+Definition to_blk (b : mblock) : blk (variant RA) (expr RA) := mkBlk _ _ (mb_eqs b) (mb_wrt b) (mb_step b).
+
+(* every block is well-formed and solved successfully in the state in which it is run *)
+Fixpoint all_ok (bs : list mblock) (v : variant RA) : Prop :=
+  match bs with
+  | [] => True
+  | b :: r => mb_ok b v /\ all_ok r (mb_step b v)
+  end.
+
+Definition run_mblocks (bs : list mblock) (v : variant RA) : variant RA := fold_left (fun v b => mb_step b v) bs v.
+
+Lemma run_mblocks_blk bs v : run_blocks _ _ (map to_blk bs) v = run_mblocks bs v.
+Proof. revert v; induction bs as [|b r IH]; intros v; simpl; auto. Qed.
+
+Lemma all_ok_good bs v : vinv v -> all_ok bs v -> all_good _ _ eq_holds same_cells vinv (map to_blk bs) v.
+Proof.
+  revert v; induction bs as [|b r IH]; intros v Hv H; simpl in *; auto.
+  destruct H as [Hb Hr]. split.
+  - unfold good_at. simpl. split; [now apply mb_step_inv|]. split.
+    + intros q Hq. now apply mb_step_local.
+    + intros e He. now apply mb_step_solves.
+  - apply IH; auto. now apply mb_step_inv.
+Qed.
+
+(* no equation of a block mentions a quantity that a later block solves for *)
+Fixpoint mtriangular (bs : list mblock) : Prop :=
+  match bs with
+  | [] => True
+  | b :: r => (forall e, In e (mb_eqs b) -> forall b', In b' r -> forall q s, In q (mb_wrt b') -> ~ In (q, s) (tokens RA e))
+              /\ mtriangular r
+  end.
+
+Lemma mtriangular_blk bs : mtriangular bs -> triangular _ _ qids_of_expr (map to_blk bs).
+Proof.
+  induction bs as [|b r IH]; simpl; auto. intros [T0 T]. split; auto.
+  intros e He b' Hb' q Hq Hin. apply in_map_iff in Hb'. destruct Hb' as (mb & <- & Hmb).
+  unfold qids_of_expr in Hin. apply in_map_iff in Hin. destruct Hin as ([q' s] & E & Hin). simpl in E. subst q'.
+  exact (T0 e He mb Hmb q s Hq Hin).
+Qed.
+
+(* THEOREM: block by block in a block-triangular order, every equation of every block holds on the FINAL stored
+   path (within tol at the evaluated dates) *)
+Theorem model_blockwise bs v0 :
+  vinv v0 -> all_ok bs v0 -> mtriangular bs ->
+  forall b e, In b bs -> In e (mb_eqs b) -> eq_holds (run_mblocks bs v0) e.
+Proof.
+  intros Hv Hok Ht b e Hb He. rewrite <- run_mblocks_blk.
+  apply (blockwise_equals_joint _ _ eq_holds same_cells qids_of_expr vinv eq_holds_ext (map to_blk bs) v0)
+    with (b := to_blk b); auto.
+  - now apply all_ok_good.
+  - now apply mtriangular_blk.
+  - now apply in_map.
+Qed.
+
+End ModelBlocks.
